@@ -38,7 +38,13 @@ header_val = st.one_of(
     st.binary(max_size=20).map(lambda b: b.replace(b"\r", b"r").replace(b"\n", b"n")),
     st.sampled_from([b"a: b", b": ", b" leading", b"trailing ", b"", b"x: y: z"]),
 )
-headers = st.lists(st.tuples(header_key, header_val), max_size=8, unique_by=lambda t: t[0])
+# headers that mean something to an HTTP implementation: the parser reports the message as it is, it does not act on them
+semantic_header = st.one_of(
+    st.tuples(st.sampled_from([b"Content-Length", b"content-length", b"CONTENT-LENGTH", b"Content-length"]), st.sampled_from([b"0", b"1", b"4", b"007", b"16", b"100000", b"-1", b"4, 4", b"0x10"])),
+    st.tuples(st.sampled_from([b"Transfer-Encoding", b"transfer-encoding", b"TE"]), st.sampled_from([b"chunked", b"gzip, chunked", b"identity"])),
+    st.tuples(st.sampled_from([b"Content-Encoding", b"Content-Type", b"Connection", b"Expect", b"Host", b"Cookie", b"Upgrade"]), st.sampled_from([b"gzip", b"multipart/form-data; boundary=x", b"close", b"100-continue", b"a.example:8080", b"a=b; c=d", b"h2c"])),
+)
+headers = st.lists(st.one_of(st.tuples(header_key, header_val), st.tuples(header_key, header_val), semantic_header), max_size=8, unique_by=lambda t: t[0])
 body = st.one_of(st.just(b""), S.binary(0, 60), st.sampled_from([b"\r\n\r\n", b"a\r\n\r\nb", b"\x00\x00", b"\r\n", b"GET / HTTP/1.1\r\n\r\n"]), st.tuples(S.binary(0, 20), S.binary(0, 20)).map(lambda t: t[0] + b"\r\n\r\n" + t[1]))
 path = st.lists(st.text(alphabet=PATH_CHARS, max_size=8), min_size=1, max_size=4).map(lambda segs: ("/" + "/".join(segs)).encode()).filter(lambda p: not p.startswith(b"//"))
 pkey = st.one_of(st.text(alphabet=TOKEN, min_size=1, max_size=8).map(lambda s: s.encode()), S.binary(0, 8))
